@@ -7,10 +7,11 @@ import shutil
 
 from . import ser_common as sc
 from . import c01_ext as cx
+from . import c01_g6 as g6
 
 LEVEL = "proof"
 # theorems that tie the chain translated from the current source to the model: built and audited on their own
-EXTRA_PROPS = ["QuantemModel.Props.C01Tie"]
+EXTRA_PROPS = ["QuantemModel.Props.C01Tie", "QuantemModel.Props.C01Ext"]
 MANIFEST_ENTRY = {
     "category": "proof",
     "text": "Lean 4 theorem `roundtrip` (structural induction over the whole value universe, any depth/width/mix): decode(encode v) = canon v for every well-formed object graph of the executable model of serialize.py (ndarray fast path with NumPy promotion, empty/0-d arrays, path flags, container and object restoration loops), plus the fixed point of a second save/load (`roundtrip_fixed`) and attribute-name exactness (`attr_names_exact`). The type-dispatch chain of _serialize_value is translated mechanically from the current source on every run (harness/translator/serdispatch2lean.py -> Generated/SerializeDispatch.lean) and proved equal to the hand model for every CONSISTENT combination of the 30 isinstance/hasattr facts (`generated_dispatch_eq_model` in Props/C01Tie.lean; `Consistent` = the subclass / attribute relations that hold for every Python object, checked on every real object of the dispatch stream); every supported value kind reaches its own branch (`generated_dispatch_kind`), the chain is first-match (`dispatch_first_match`), the kinds for which the order decides are listed (`order_decides`), and what `encode` stores shows that branch (`encode_follows_dispatch`). The argument checks of save() are modelled check by check (`resolveSave_ok_iff`: accepted exactly for level None/0..9, store zip or dir with an extension-less path, target absent or mode 'o'; `resolveSave_level_independent`), and the round trip and the fixed point are proved over every HISTORY of save / load / print_file calls on shared targets, rejected and raising calls included (`roundtrip_history`, `fixed_point_history`, `raised_call_is_noop`, `hstep_frame`). The model is tied to the code on every run by differential round trips of generated graphs through the real save()/load() (zip and dir stores, all compression levels, str/Path, keyword and positional calls), by call histories on shared targets (save, read, overwrite with another graph, rejected / raising saves, in-memory mutation of sources and of loaded objects), by the argument-check grid, by the facts and the branch of real objects of every kind, and the property's own equality is evaluated on the real results as the failing-input search.",
@@ -350,6 +351,7 @@ def run(ctx):
         _guard(ctx, "dispatch", lambda: cx.dispatch_stream(ctx, drv))
         _guard(ctx, "save-args", lambda: cx.resolve_stream(ctx, drv))
         _guard(ctx, "history", lambda: cx.history_stream(ctx, drv))
+        _guard(ctx, "fixed-g6", lambda: g6.fixed_stream(ctx, drv))
         # fixed probe of a recorded finding (int/float promotion in the ndarray fast path)
         probe = ["obj", "SA", [["a", ["list", [["scalar", ["int", str(2 ** 62 + 1)]], ["scalar", sc.S(0.5)]]]]]]
         check_case(ctx, drv, probe, [gen_cfg(ctx.rng.fork(999), "zip")], "probe")
@@ -378,6 +380,9 @@ def replay(ctx, rep):
     try:
         if case.get("seqkeys"):
             seqkeys_stream(ctx, drv)
+            return True
+        if case.get("g6"):
+            g6.fixed_stream(ctx, drv)
             return True
         if case.get("history"):
             cx.run_history(ctx, drv, case, "replay")
